@@ -82,7 +82,7 @@ def _canary_variant(U):
         if s.kind == "fn" and s.canary_offsets:
             for ci, off in enumerate(s.canary_offsets):
                 fn = s.meta["fn_name"]
-                new = "%s__canary%d" % (fn, ci)
+                new = "%s__canary%d" % (fn, n)
                 text = rules.apply_edits(s.text, [(off, off, " assert(false); /*CANARY:%s*/ " % new)])
                 text, cnt = rules.sub(text, "fn " + fn, "fn " + new, 1)
                 extra.append(text)
@@ -122,7 +122,7 @@ def _canary_variant(U):
                         e = match_close(toks, j)
                         # include leading `pub` if present
                         a = toks[i - 1].start if i > 0 and toks[i - 1].text in ("pub", "broadcast") else toks[i].start
-                        new = name + "__canary0"
+                        new = name + "__canary%d" % n
                         body = s.text[a:toks[e].end]
                         rel = toks[j].end - a
                         body = body[:rel] + " assert(false); /*CANARY:%s*/ " % new + body[rel:]
